@@ -12,6 +12,7 @@ import (
 	"sync/atomic"
 	"time"
 
+	"github.com/named-data/ndnd/fw/defn"
 	"github.com/named-data/ndnd/fw/face"
 	enc "github.com/named-data/ndnd/std/encoding"
 	stdface "github.com/named-data/ndnd/std/engine/face"
@@ -98,6 +99,13 @@ func c11Run(c *h.Ctx) {
 			continue
 		}
 		c11Socket(c, id, c.Rng(id), c.Pick(300_000, 3_000_000))
+	}
+	for s := 0; s < c.Pick(4, 24); s++ {
+		id := fmt.Sprintf("tr%d", s)
+		if !c.Case(id) {
+			continue
+		}
+		c11Transport(c, id, c.Rng(id), c.Pick(200_000, 1_500_000))
 	}
 	for s := 0; s < c.Pick(3, 20); s++ {
 		id := fmt.Sprintf("send%d", s)
@@ -347,6 +355,115 @@ func c11Socket(c *h.Ctx, id string, r *rand.Rand, total int) {
 	c11Compare(c, id, "StreamFace", blocks, got, det)
 	c.Count("socket_blocks", int64(len(blocks)))
 	c.Distinct("socket|unix")
+}
+
+// c11Transport: the forwarder's real stream transports (TCP accepted on loopback, Unix stream)
+// run their own receive loop on a real socket; a frame sink records what they hand to the link
+// layer. Half of the cases lower the face MTU first (a send limit: it must not filter what arrives).
+func c11Transport(c *h.Ctx, id string, r *rand.Rand, total int) {
+	kind := []string{"tcp", "unix"}[r.Intn(2)]
+	lowMTU := r.Intn(2) == 0
+	var blocks [][]byte
+	var stream []byte
+	for len(stream) < total {
+		b := c11Block(r, true)
+		blocks = append(blocks, b)
+		stream = append(stream, b...)
+	}
+	var ln net.Listener
+	var err error
+	var path string
+	if kind == "tcp" {
+		ln, err = net.Listen("tcp4", "127.0.0.1:0")
+	} else {
+		dir := filepath.Join(c.WorkDir, fmt.Sprintf("sock-%d", c.Batch))
+		h.MustMkdir(dir)
+		path = filepath.Join(dir, id+".sock")
+		os.Remove(path)
+		ln, err = net.Listen("unix", path)
+	}
+	if err != nil {
+		c.Inconclusive("cannot listen: " + err.Error())
+		return
+	}
+	defer ln.Close()
+	type acc struct {
+		conn net.Conn
+		err  error
+	}
+	ach := make(chan acc, 1)
+	go func() {
+		cn, e := ln.Accept()
+		ach <- acc{cn, e}
+	}()
+	peer, err := net.Dial(ln.Addr().Network(), ln.Addr().String())
+	if err != nil {
+		c.Inconclusive("cannot dial: " + err.Error())
+		return
+	}
+	a := <-ach
+	if a.err != nil {
+		c.Inconclusive("accept failed: " + a.err.Error())
+		return
+	}
+	var sink *face.VerifFrameSink
+	done := make(chan struct{})
+	var setupErr error
+	if pi := h.Guard(func() {
+		if kind == "tcp" {
+			tr, e := face.AcceptUnicastTCPTransport(a.conn, nil, face.PersistencyPersistent)
+			if e != nil {
+				setupErr = e
+				return
+			}
+			sink = face.NewVerifFrameSink(tr)
+			if lowMTU {
+				tr.SetMTU([]int{1500, 300, 64}[r.Intn(3)])
+			}
+			go func() { face.VerifRunReceive(tr); close(done) }()
+		} else {
+			tr, e := face.MakeUnixStreamTransport(defn.MakeFDFaceURI(int(c.Batch)*1000+len(id)), defn.MakeUnixFaceURI(path), a.conn)
+			if e != nil {
+				setupErr = e
+				return
+			}
+			sink = face.NewVerifFrameSink(tr)
+			if lowMTU {
+				tr.SetMTU([]int{1500, 300, 64}[r.Intn(3)])
+			}
+			go func() { face.VerifRunReceive(tr); close(done) }()
+		}
+	}); pi != nil {
+		c.Violation("C11:panic:transport-setup:"+pi.Frame+":"+pi.Class, id, "transport construction panicked: "+pi.Value, nil)
+		return
+	}
+	if setupErr != nil || sink == nil {
+		c.Inconclusive(fmt.Sprintf("cannot build %s transport: %v", kind, setupErr))
+		return
+	}
+	off := 0
+	for off < len(stream) {
+		n := []int{1, 3, 1 + r.Intn(100), 1 + r.Intn(9000), 50000}[r.Intn(5)]
+		if n > len(stream)-off {
+			n = len(stream) - off
+		}
+		if _, err := peer.Write(stream[off : off+n]); err != nil {
+			break
+		}
+		off += n
+	}
+	peer.Close()
+	select {
+	case <-done:
+	case <-time.After(120 * time.Second):
+		c.Inconclusive("transport receive loop did not see EOF in 120 s")
+		return
+	}
+	c.Eval(1)
+	det := map[string]any{"plan": kind + "-transport", "mtu_lowered": lowMTU, "blocks": len(blocks), "stream_bytes": len(stream)}
+	c11Compare(c, id, kind+" transport", blocks, sink.Frames(), det)
+	c.Count("transport_blocks", int64(len(blocks)))
+	c.Distinct(fmt.Sprintf("transport|%s|mtu-lowered=%v", kind, lowMTU))
 }
 
 // c11SendSide: several goroutines send blocks as multi-buffer wires on ONE StreamFace; the peer
